@@ -1,5 +1,6 @@
 import Mimium.Model.StageWitness
 import Mimium.Proofs.CoreRenameV
+import Mimium.Proofs.StagePipe
 /-!
 # C10 — hygiene of macros
 
@@ -48,6 +49,50 @@ theorem C10_capture_witness :
 /-- capture through the generated temporary `__dt0` of a nested tuple pattern -/
 theorem C10_generated_name_capture_witness :
     dtRun "zz" = .num bits5 ∧ dtRun "__dt0" = .tuple := by decide +kernel
+
+/-! ### the macro pipe `x ||> (|a| `{ … $a … })` (expanded by the front end: `convert_macro_pipe`, `substitute_macro_arg`)
+
+`substitute_macro_arg` replaces splices by NAME. Nested pipes whose macro lambdas bind the same name are nevertheless
+expanded correctly, because `convert_macro_pipe` converts the function part — expanding the pipes inside its body, whose
+binders thereby disappear — BEFORE it inlines the argument. -/
+
+/-- the pinned order: the piped argument is inlined into the already converted body -/
+theorem C10_macro_pipe_order (a : String) (arg body : Ex) :
+    convMacroPipe (.pipeM arg (.lam [a] (.bracket body))) = substMacroArg a (convMacroPipe arg) (convMacroPipe body) :=
+  convMacroPipe_pipe a arg body
+
+/-- **The macro pipe is hygienic in its binder.** Renaming the binder `a` of a piped macro lambda to `b`, its splices
+renamed with it (`body'` converts to the renamed conversion of `body`), does not change the expansion, for every argument
+and body, provided `$b` is not already spliced in the converted body. Applied to an inner pipe this is: the result does
+not depend on the inner binder's name, whatever the enclosing pipes are called (the conversion is compositional). -/
+theorem C10_macro_pipe_hygienic (a b : String) (arg body body' : Ex)
+    (hren : convMacroPipe body' = renHole a b (convMacroPipe body)) (hb : holeFree b (convMacroPipe body) = true) :
+    convMacroPipe (.pipeM arg (.lam [b] (.bracket body'))) = convMacroPipe (.pipeM arg (.lam [a] (.bracket body))) := by
+  rw [convMacroPipe_pipe, convMacroPipe_pipe, hren]
+  exact substMacroArg_renHole a b (convMacroPipe arg) (convMacroPipe body) hb
+
+/-- nested pipes with EQUAL binder names, in the compiler's order: the inner pipe yields 10 whatever its binder is called … -/
+theorem C10_macro_pipe_nested_same_name :
+    firstOut (expandToCore [] (dspOnly (convMacroPipe (nestedPipe "a"))) 1000) = .num bits10 ∧
+    firstOut (expandToCore [] (dspOnly (convMacroPipe (nestedPipe "b"))) 1000) = .num bits10 := by decide +kernel
+
+/-- … whereas the other order (inline the outer argument first, expand nested pipes afterwards) lets the outer binder
+capture the inner splice: 3 instead of 10, and renaming the inner binder changes the result -/
+theorem C10_macro_pipe_top_down_captures :
+    firstOut (expandToCore [] (dspOnly (convMacroPipeTD 100 (nestedPipe "a"))) 1000) = .num bits3 ∧
+    firstOut (expandToCore [] (dspOnly (convMacroPipeTD 100 (nestedPipe "b"))) 1000) = .num bits10 := by decide +kernel
+
+/-- finding S6: a macro lambda that is NOT the function of a pipe survives the bottom-up pass, and the substitution,
+which does not know binders, enters it: `3.0 ||> (|a| `{ $((|a| `{ $a })(`2.0)) })` is 3, with the inner binder renamed 2 -/
+theorem C10_macro_pipe_inner_lambda_capture_witness :
+    firstOut (expandToCore [] (dspOnly (pipeOverLambda "a")) 1000) = .num bits3 ∧
+    firstOut (expandToCore [] (dspOnly (pipeOverLambda "b")) 1000) = .num bits2 := by decide +kernel
+
+/-- finding S5: the `_` sugar binds the generated name `__lambda_arg_<argument index>`; a user's macro parameter of that
+name spliced next to the placeholder is captured: `fst($__lambda_arg_1, _)` piped with 3 is `fst(3, 3)` = 3, not 100 -/
+theorem C10_macro_pipe_generated_binder_capture_witness :
+    firstOut (expandToCore [] (sugarCapture "__lambda_arg_1") 1000) = .num bits3 ∧
+    firstOut (expandToCore [] (sugarCapture "zz") 1000) = .num bits100 := by decide +kernel
 
 end Mimium.Stage
 
